@@ -176,6 +176,7 @@ fn check(c: &Case) -> CaseResult {
         .label(c.l.zero_counters != 0, "counters-unknown-0")
         .label(f.prefix_overlap, "same-offset-different-length")
         .label(f.mixed, "tile-entries-and-leaf-pointers-in-one-directory")
+        .label(b.expected.contains_key(&(crate::spec::hilbert::domain_end() - 1)), "addresses-last-tile-id")
         .label(true, super::c01::codec_label(c.l.internal))
         .label(c.open % 3 == 2, "open-async"))
 }
@@ -294,6 +295,15 @@ pub fn run(ctx: &Ctx) {
             Case { l, open: (i % 3) as u8 }
         })
         .collect();
+    // the same, perfectly regular: consecutive ids, run 1, one length, contiguous offsets - such a directory
+    // compresses to a few dozen bytes, far fewer bytes than it has entries
+    let mut wide = wide;
+    for i in 0..ctx.tier.pick(3usize, 9) {
+        let mut l = super::c13::small_layout(2 + (i % 3) as u8, 1);
+        l.entries = (0..9_000 + 11_000 * (i / 3) + 1000 * i).map(|_| crate::spec::writer::TEnt { gap: 0, run: 1, sel: 0 }).collect();
+        l.data_mode = 2;
+        wide.push(Case { l, open: (i % 3) as u8 });
+    }
     run_list(ctx, "single-directory-over-16384-entries", &wide, check);
     let fx = fixtures();
     if fx.len() < 3 {
